@@ -404,7 +404,14 @@ class MagicRobot(wpilib.RobotBase):
         auto_functions: tuple[Callable[[], None], ...] = (self._enabled_periodic,)
 
         if self.use_teleop_in_autonomous:
-            auto_functions = (self.teleopPeriodic,) + auto_functions
+
+            def teleop_periodic() -> None:
+                try:
+                    self.teleopPeriodic()
+                except:
+                    self.onException()
+
+            auto_functions = (teleop_periodic,) + auto_functions
 
         self._automodes.run(
             self.control_loop_wait_time,
